@@ -69,6 +69,8 @@ def tiers(tier):
                  dirset="q2", modes=["vg", "cov", "covnc", "mado", "trans1", "trans2", "binormal"], mod=70, dpc=2),
             dict(name="selw", dims=[3, 3], minn=2, maxn=3, vals=[0, 2], na=False, nvar=1, sel=True, weights=[1, 2],
                  dirset="q2", modes=["vg", "cov", "covnc", "covg", "order4"], mod=50, dpc=2),
+            dict(name="tri3", dims=[3, 3], minn=2, maxn=3, vals=[0, 2], na=False, nvar=3, sel=False, weights=[1],
+                 dirset="q2", modes=["vg", "cov", "covnc", "trans1", "binormal"], mod=120, dpc=2),
             dict(name="line", dims=[5], minn=2, maxn=5, vals=[0, 1, 3], na=True, nvar=1, sel=False, weights=[1],
                  dirset="l1", modes=["vg", "cov", "covnc", "rodo"], mod=5, dpc=2),
             dict(name="cube", dims=[2, 2, 2], minn=2, maxn=3, vals=[0, 1], na=True, nvar=1, sel=False, weights=[1],
@@ -88,6 +90,10 @@ def tiers(tier):
              dirset="t2", modes=["vg", "cov", "covnc", "covg", "trans1", "binormal", "rodo"], mod=200, dpc=3),
         dict(name="hets2", dims=[3, 3], minn=2, maxn=3, vals=[0, 2], na=True, nvar=2, sel=True, weights=[1],
              dirset="t2", modes=["vg", "cov", "covnc", "covg", "trans2", "mado", "order4"], mod=200, dpc=3),
+        dict(name="tri3", dims=[3, 3], minn=2, maxn=3, vals=[0, 2], na=False, nvar=3, sel=False, weights=[1],
+             dirset="t2", modes=["vg", "cov", "covnc", "covg", "trans1", "trans2", "binormal", "mado"], mod=25, dpc=3),
+        dict(name="tri3na", dims=[3, 3], minn=2, maxn=3, vals=[1], na=True, nvar=3, sel=True, weights=[1],
+             dirset="t2", modes=["vg", "cov", "covnc"], mod=100, dpc=3),
         dict(name="dup", dims=[3, 3], minn=2, maxn=4, vals=[0, 1], na=True, nvar=1, sel=False, weights=[1], dup=True,
              dirset="t2", modes=["vg", "cov", "covnc", "mado"], mod=15, dpc=3),
         dict(name="big4", dims=[4, 4], minn=2, maxn=3, vals=[0, 1, 2], na=True, nvar=1, sel=False, weights=[1],
@@ -120,7 +126,7 @@ def hh_of(groups, sw):
 
 
 def varpairs(nvar):
-    return [(1, 1)] if nvar == 1 else [(1, 1), (2, 1), (2, 2)]
+    return [(i, j) for i in range(1, nvar + 1) for j in range(1, i + 1)]
 
 
 class Cmp:
@@ -130,6 +136,7 @@ class Cmp:
         self.c = case
         self.out = []          # disagreement records
         self.n = {}            # counters
+        self.via = "vec_ij"    # accessor through which the values being compared were read
 
     def cnt(self, k, n=1):
         self.n[k] = self.n.get(k, 0) + n
@@ -137,7 +144,7 @@ class Cmp:
     def bad(self, run, x, vp, slot, what, exp, obs):
         d = self.c["dirs"][x]
         self.out.append(dict(kind="value", mode=run["mode"], algo=run["algo"], variant=run["v"], what=what,
-                             multi_dir=len(run["which"]) > 1, nvar=self.c["nvar"], varpair="%d%d" % vp, slot=slot,
+                             multi_dir=len(run["which"]) > 1, nvar=self.c["nvar"], varpair="%d%d" % vp, slot=slot, read=self.via,
                              dir=x, tolang=d["tolang"], expected=exp, observed=obs))
 
     # -- expected value of a symmetric estimator in a slot: (defined?, value)
@@ -148,7 +155,9 @@ class Cmp:
             p = 0.5 if mode == "mado" else 0.25
             return True, sum(w * (x ** p) for x, w in S["ad"]) / (2.0 * sw)
         if mode == "binormal" and vp[0] != vp[1]:
-            a, b = e["sym"][0][k]["gg"]["vg"], e["sym"][2][k]["gg"]["vg"]
+            vps = varpairs(self.c["nvar"])
+            a = e["sym"][vps.index((vp[0], vp[0]))][k]["gg"]["vg"]
+            b = e["sym"][vps.index((vp[1], vp[1]))][k]["gg"]["vg"]
             g = S["gg"]["vg"]
             if a[1] == 0 or b[1] == 0 or a[0] * b[0] <= 0:
                 return False, None
@@ -327,15 +336,22 @@ class Cmp:
                 self.out.append(dict(kind="error", mode=run["mode"], algo=run["algo"], variant=run["v"], what="err",
                                      multi_dir=len(run["which"]) > 1))
                 continue
-            if not run["symread"]:
-                self.out.append(dict(kind="value", mode=run["mode"], algo=run["algo"], variant=run["v"], what="symread",
-                                     multi_dir=len(run["which"]) > 1))
-            if run["v"] in ("grid", "gridtr"):
-                self.cmp_gen(run, grid=True)
-            elif run["algo"] == "bys":
-                self.cmp_bys(run)
-            else:
-                self.cmp_gen(run)
+            # the first reading (vector accessors, (i, j) with j <= i) and every other reading of the same
+            # cells that was not bit-identical to it ((j, i), scalar accessors) are compared with the definition
+            readings = [("vec_ij", run)]
+            for via in sorted({al["via"] for d in run["dirs"] for o in d for al in o.get("alt", [])}):
+                r2 = dict(run)
+                r2["dirs"] = [[next((al for al in o.get("alt", []) if al["via"] == via), o) for o in d] for d in run["dirs"]]
+                readings.append((via, r2))
+                self.cnt("alt_readings_differing")
+            for via, r in readings:
+                self.via = via
+                if r["v"] in ("grid", "gridtr"):
+                    self.cmp_gen(r, grid=True)
+                elif r["algo"] == "bys":
+                    self.cmp_bys(r)
+                else:
+                    self.cmp_gen(r)
 
 
 def compare_chunk(args):
@@ -364,7 +380,13 @@ def compare_chunk(args):
                 o["runs"] += part.get("runs", [])
             for k, v in cm.n.items():
                 counters[k] = counters.get(k, 0) + v
-            for e in c["exp"]:
+            counters["cases_nvar%d" % c["nvar"]] = counters.get("cases_nvar%d" % c["nvar"], 0) + 1
+            for x, e in enumerate(c["exp"]):
+                dd = c["dirs"][x]
+                if e["ok"] and e["npairs"] > 0 and dd["cn"] and sum(t * t for t in dd["cod"]) != 1:
+                    counters["dirs_cylinder_nonunit_codir"] = counters.get("dirs_cylinder_nonunit_codir", 0) + 1
+                if e["ok"] and e["npairs"] > 0 and dd["bn"]:
+                    counters["dirs_bench"] = counters.get("dirs_bench", 0) + 1
                 if e["ok"]:
                     counters["dirs_ok"] = counters.get("dirs_ok", 0) + 1
                     for fl in ("otie", "pur", "grid", "etie"):
@@ -464,7 +486,7 @@ def run(tier):
             except Exception as ex:       # noqa
                 errors.append(ex)
 
-    cost = lambda c: -(c["nvar"] ** 2) * len(c["modes"]) * (9 ** c["maxn"] if c["nvar"] == 2 else 4 ** c["maxn"]) / c["mod"]
+    cost = lambda c: -(c["nvar"] ** 2) * len(c["modes"]) * (9 ** c["maxn"] if c["nvar"] >= 2 else 4 ** c["maxn"]) / c["mod"]
     ths = [threading.Thread(target=guarded, args=(c,)) for c in sorted(cfgs, key=cost)]
     t0 = time.time()
     for t in ths:
@@ -557,7 +579,10 @@ def run(tier):
 
     # vacuity
     need = ["slots_nonempty", "cmp_gen", "cmp_bys", "run:base/gen", "run:rev/gen", "run:shuf/gen", "run:tr/gen", "run:dbgrid/gen",
-            "run:grid/gen", "run:base/bys", "flag_grid", "flag_etie", "flag_pur", "flag_otie", "dirs_with_pairs", "slots_bysample"]
+            "run:grid/gen", "run:base/bys", "flag_grid", "flag_etie", "flag_pur", "flag_otie", "dirs_with_pairs", "slots_bysample",
+            "cases_nvar1", "cases_nvar2", "cases_nvar3", "dirs_cylinder_nonunit_codir"]
+    if tier == "thorough":
+        need.append("dirs_bench")
     need.append("cmp_general")
     need += ["mode:" + m for c in cfgs for m in c["modes"]]
     missing = [k for k in need if counters.get(k, 0) == 0]
